@@ -17,7 +17,7 @@ import os
 import pickle
 import sys
 
-from catalog_canon import canon
+from catalog_canon import canon, scramble
 
 CATMOD = """\
 from pytask import DataCatalog
@@ -92,6 +92,7 @@ def main() -> int:
                         results.append({"out": "missing"})
                     else:
                         results.append({"out": "loaded", "canon": canon(v)})
+                        scramble(v)      # the caller's copy is the caller's: later loads must not see this
                 else:
                     results.append({"out": "bad-op"})
             except BaseException as e:  # noqa: BLE001
